@@ -367,6 +367,41 @@ func (r *runner) deliver(f []string) string {
 		err = s.write(dir, func(fr *http2.Framer) error {
 			return fr.WriteHeaders(http2.HeadersFrameParam{StreamID: u32(c[1]), BlockFragment: blk, EndHeaders: true})
 		})
+	case "headers-open": // HEADERS without END_HEADERS: the whole block, the (empty) rest follows in CONTINUATION
+		if len(c) != 2 {
+			return "bad-op"
+		}
+		blk := s.headerBlock(dir, u32(c[1]))
+		err = s.write(dir, func(fr *http2.Framer) error {
+			return fr.WriteHeaders(http2.HeadersFrameParam{StreamID: u32(c[1]), BlockFragment: blk[:(len(blk)+1)/2], EndHeaders: false})
+		})
+		s.openBlock[dir] = blk[(len(blk)+1)/2:] // the first fragment is never empty (x/net rejects an empty HEADERS payload)
+	case "pushpromise-open": // PUSH_PROMISE without END_HEADERS (server only)
+		if len(c) != 3 || dir != "s2c" {
+			return "bad-op"
+		}
+		blk := s.headerBlock("c2s", u32(c[2]))
+		err = s.write(dir, func(fr *http2.Framer) error {
+			return fr.WritePushPromise(http2.PushPromiseParam{StreamID: u32(c[1]), PromiseID: u32(c[2]), BlockFragment: blk[:(len(blk)+1)/2], EndHeaders: false})
+		})
+		s.openBlock[dir] = blk[(len(blk)+1)/2:] // the first fragment is never empty (x/net rejects an empty HEADERS payload)
+	case "cont", "cont-end": // CONTINUATION: one more byte of the open block / the rest of it with END_HEADERS
+		if len(c) != 2 {
+			return "bad-op"
+		}
+		rest := s.openBlock[dir]
+		frag := rest
+		if c[0] == "cont" {
+			if len(rest) > 1 {
+				frag, s.openBlock[dir] = rest[:1], rest[1:]
+			} else {
+				frag = nil
+			}
+		} else {
+			s.openBlock[dir] = nil
+		}
+		end := c[0] == "cont-end"
+		err = s.write(dir, func(fr *http2.Framer) error { return fr.WriteContinuation(u32(c[1]), end, frag) })
 	case "data":
 		if len(c) != 3 {
 			return "bad-op"
